@@ -76,8 +76,8 @@ CLAIMS.update({
             "Coq proof (all roots, all inputs, strict mode) + crash oracle on arbitrary inputs + correspondence", "4 C06"),
     "C07": ("proof", "Proved for every decoder function, all tables, all states and inputs: a strict run that does not raise is reproduced exactly by warn mode; a strict run raising e after trace tr corresponds to a warn run that continues tr with (only for a value error) the offending event and then the warning wrapping the same e, or raises e itself after the same trace; through the pump: strict accepts => warn emits identical events and no warning; strict raises e => warn warns e after the same events; warn clean => strict accepts. Oracle: both modes on the same bytes (well-formed, fault-enumerated, cuts, random).",
             "Coq proof (relational structural induction strict vs warn, lifted through the pump) + correspondence + two-mode oracle", "4 C07"),
-    "C08": ("proof", "PROVED (never aborts; C08_never_aborts_every_root, Proofs/Warn1-4.v): for EVERY byte string and EVERY root - any non-union structure type of the tables, commands, responses with any command code or none, streams below the model's loop bound of 2^64 bytes - on tables passing the checks (msg_safe, msg_b2 and per type safe_ty/bytes2b; the regenerated tables pass by computation) warn-mode decoding runs to the end of the input with every problem delivered as a warning, or raises a value error that is not a type-range error (an unknown command code, a missing command code, a selector that selects no member); it never raises a size error, depleted or superfluous, never fails internally, never reaches a loop bound. Method: a Hoare logic with an exceptional post-condition - a run that ends with Exceeded for a live listed region has charged the enclosing regions exactly the bytes read (skipped ones included) and finished that region and those inside it, so every handler resumes in a state where the invariant of completed runs (every live listed region charged exactly the bytes read) holds again; the own region of a byte buffer cannot be overrun; the session loop and the stream loop consume input in every iteration. PROVED (values only): for EVERY root, on a structurally consistent input warn mode emits exactly the lenient field-by-field events with one warning (the value error naming the leaf) directly after each offending event, and accepts (the simulation in mode false); warn-mode decodes that complete with value warnings only are tiled by their events (C02 with abort=false); an overrun skips exactly the rest of the violated region before it is reported; first-problem agreement (C07). NOT proved: that after a recovered size problem every input byte is shown in a field, skipped as the reported tail or listed in the final error (the exact-charging invariant is its arithmetic core). Oracle: no escaping exception except the allowed value errors; tiling recomputed from events and warnings (resume at declared end, surplus exact); value-only inputs = lenient specification + one warning directly after each offending event." + PART % "C08",
-            "Coq proof (warn mode never aborts: all roots, all inputs; warn-mode simulation for value faults) + tiling oracle + correspondence in warn mode on single/multiple faults", "4 C08"),
+    "C08": ("proof", "PROVED (never aborts; C08_never_aborts_every_root, Proofs/Warn1-4.v): for EVERY byte string and EVERY root - any non-union structure type of the tables, commands, responses with any command code or none, streams below the model's loop bound of 2^64 bytes - on tables passing the checks (msg_safe, msg_b2 and per type safe_ty/bytes2b; the regenerated tables pass by computation) warn-mode decoding runs to the end of the input with every problem delivered as a warning, or raises a value error that is not a type-range error (an unknown command code, a missing command code, a selector that selects no member); it never raises a size error, depleted or superfluous, never fails internally, never reaches a loop bound. Method: a Hoare logic with an exceptional post-condition - a run that ends with Exceeded for a live listed region has charged the enclosing regions exactly the bytes read (skipped ones included) and finished that region and those inside it, so every handler resumes in a state where the invariant of completed runs (every live listed region charged exactly the bytes read) holds again; the own region of a byte buffer cannot be overrun; the session loop and the stream loop consume input in every iteration. PROVED (values only): for EVERY root, on a structurally consistent input warn mode emits exactly the lenient field-by-field events with one warning (the value error naming the leaf) directly after each offending event, and accepts (the simulation in mode false); warn-mode decodes that complete with value warnings only are tiled by their events (C02 with abort=false); an overrun skips exactly the rest of the violated region before it is reported; first-problem agreement (C07). PROVED (tiling with size problems; C08_every_run_is_tiled, Proofs/WTiling.v, every root, every input, either mode): the run's trace is a sequence of blocks - structure event; the w bytes of a primitive followed by its event carrying their big-endian value; a warning without bytes; an overrun = the skipped rest of the violated region, exactly limit - counted bytes, followed by its Exceeded warning; a shortfall = the Subceeded warning followed by exactly limit - counted bytes of padding - with one incomplete last block when the input ends early, and the input is the bytes of the blocks followed by the unread rest: every input byte is shown in a field, skipped as the reported tail of a region or left as surplus, and decoding resumes exactly at the end the violated size field declares. Nothing of the property's text is left without a theorem about the model. Oracle: no escaping exception except the allowed value errors; tiling recomputed from events and warnings (resume at declared end, surplus exact); value-only inputs = lenient specification + one warning directly after each offending event." + PART % "C08",
+            "Coq proof (warn mode never aborts; tiling with overrun/shortfall blocks; warn-mode simulation for value faults: all roots, all inputs) + tiling oracle + correspondence in warn mode on single/multiple faults", "4 C08"),
     "C09": ("proof", "PROVED (C09_stream_is_its_messages): for every byte string that is a concatenation of whole messages - command, the response to it, command, ..., the last command possibly without its response - (tables passing msg_tables_ok, either mode, below the model's loop bound of 2^64 bytes) the events and warnings of the stream decode are exactly the events of the first command decoded on its own, then those of the response decoded with THAT command's code and the response encryption THAT command's sessions ask for, then the next command's, ... in order, and the decoder stops silently at the next message root; object side: a decoded stream's events split at the message roots are exactly the per-message event lists, one object per message in order, command / response-built-with-that-command's-code pairing. Not proved: streams containing a malformed message (behaviour up to the first problem is C07/C10); events_to_objs on the implementation. Oracle: stream vs individual decodes on the implementation (Python == on events incl. type identity, and on objects) for generated sequences with failed responses, sessions and encryption mixed." + PART % "C09",
             "Coq proof (stream simulation + per-message theorems) + stream-vs-individual oracle + correspondence", "4 C09"),
     "C10": ("proof", "Proved for every decoder function, both modes, all tables, all states: appending input leaves every run that did not stop for lack of input unchanged and extends the others (the decoder learns about its input only by asking for the next byte); hence for ALL inputs the events of a prefix are a prefix of the events of the whole input; every event is reported with min(len, bytes received + 1) bytes pulled. Independence of the iterable kind is not a theorem: correspondence with seven source kinds. Oracle: look-ahead, prefix stability, complete fields at random and boundary cuts.",
